@@ -509,6 +509,58 @@ def date_template_roundtrip(stg, rng):
     return n, failures
 
 
+def other_repository_roundtrip(stg):
+    """the exported series is self-contained: imported into ANOTHER repository that has nothing but
+    the base commit (no blob of any patch), it reproduces every tree - text, added / modified /
+    removed binary files, empty files, mode changes"""
+    failures = []
+    n = 0
+    with repo.Scratch("c18a") as a, repo.Scratch("c18b") as b:
+        a.init_repo()
+        a.write("keep.bin", bytes(range(256)) + b"\0old\0")
+        a.write("gone.bin", b"\0\1\2 to be removed \0")
+        a.git(["add", "-A"])
+        a.git(["commit", "-q", "-m", "binary files in the base"])
+        a.git(["branch", "basebr"])
+        a.stg(stg, ["init"])
+        steps = [("p-text", lambda: a.write("t.txt", "text\n")),
+                 ("p-addbin", lambda: a.write("new.bin", b"\0\xff\xfe binary \0" * 20)),
+                 ("p-modbin", lambda: a.write("keep.bin", bytes(reversed(range(256))) + b"\0new\0")),
+                 ("p-rmbin", lambda: os.remove(os.path.join(a.path, "gone.bin"))),
+                 ("p-empty-and-mode", lambda: (a.write("empty", ""), a.write("run.sh", "#!/bin/sh\n"),
+                                               os.chmod(os.path.join(a.path, "run.sh"), 0o755)))]
+        for nm, fn in steps:
+            a.stg(stg, ["new", "-m", "subject of " + nm, nm])
+            fn()
+            a.git(["add", "-A"])
+            a.stg(stg, ["refresh"])
+        want = {nm: patch_facts(a, nm) for nm, _ in steps}
+        out = os.path.join(a.home, "out")
+        p = a.stg(stg, ["export", "-d", out])
+        if p.returncode != 0:
+            return 1, [{"obligation": "direct-oracle:C18", "why": "export failed", "stderr": p.stderr[-300:]}]
+        b.git(["init", "-q", "-b", "main"])
+        b.git(["config", "user.name", "C O Mitter"])
+        b.git(["config", "user.email", "committer@example.com"])
+        b.git(["fetch", "-q", a.path, "basebr"])
+        b.git(["reset", "-q", "--hard", "FETCH_HEAD"])
+        b.stg(stg, ["init"])
+        p = b.stg(stg, ["import", "--series", os.path.join(out, "series")])
+        n += 1
+        if p.returncode != 0:
+            failures.append({"obligation": "direct-oracle:C18", "form": "series, other repository",
+                             "why": "import into a repository that has only the base commit failed (the exported "
+                                    "series is not self-contained)", "exit": p.returncode, "stderr": p.stderr[-300:]})
+            return n, failures
+        for nm, _ in steps:
+            got = patch_facts(b, nm)
+            n += 1
+            if got["tree"] != want[nm]["tree"]:
+                failures.append({"obligation": "direct-oracle:C18", "form": "series, other repository", "patch": nm,
+                                 "problems": ["tree differs"]})
+    return n, failures
+
+
 def run(ctx):
     stg = common.build_stg()
     broken = gate.coq_gate(ctx, need_extract=False)
@@ -550,8 +602,9 @@ def run(ctx):
     n1, f1 = reject_check(stg, ctx.rng)
     n2, f2 = mbox_check(stg, ctx.rng)
     n3, f3 = date_template_roundtrip(stg, ctx.rng)
-    e2e += n1 + n2 + n3
-    failures += f1 + f2 + f3
+    n4, f4 = other_repository_roundtrip(stg)
+    e2e += n1 + n2 + n3 + n4
+    failures += f1 + f2 + f3 + f4
     ctx.obligations += 1
     if not failures:
         ctx.discharged += 1
